@@ -12,6 +12,7 @@ import conv_checks
 import err_checks
 import alias_checks
 import pre_checks
+import hooks_checks
 
 CORE_A = ["Model/Base.v", "Model/Dispatch.v", "Model/Routing.v", "Model/DispLane.v", "Gen/DispatchSrc.v", "Gen/ConvSrc.v",
           "Proofs/DispatchProofs.v", "Proofs/RoutingProofs.v", "Proofs/SrcObligations.v"]
@@ -83,8 +84,9 @@ def _c10(v, b, tier):
     tpl_checks.check_c10(v, b.t1_summary, 60 * SIZES[tier], 5)
 
 
-CORE_CONV = ["Model/Base.v", "Model/Templates.v", "Model/Conv.v", "Model/ConvSpec.v", "Model/ConvLane.v", "Gen/GenSrc.v",
-             "Proofs/TemplatesProofs.v", "Proofs/SrcObligationsGen.v", "Proofs/ClassSound.v"]
+CORE_CONV = ["Model/Base.v", "Model/Templates.v", "Model/Conv.v", "Model/ConvSpec.v", "Model/ConvLane.v", "Model/HookTable.v", "Gen/GenSrc.v", "Gen/HooksSrc.v",
+             "Proofs/TemplatesProofs.v", "Proofs/SrcObligationsGen.v", "Proofs/SrcObligationsHooks.v", "Proofs/ClassSound.v"]
+T1_CONV = ["gen", "converters", "hooks"]
 
 RULE_CONV = ("worlds = 2 enums + 1-4 generated classes (attrs, frozen attrs, dataclasses; 0-4 attributes in random order, required / default / factory, kw_only, "
              "private names, untyped, recursive references through Optional / List / Dict) ; per world 2-3 top-level types drawn from every constructor of the nested "
@@ -97,6 +99,7 @@ RULE_CONV = ("worlds = 2 enums + 1-4 generated classes (attrs, frozen attrs, dat
 
 def _conv(prop, base):
     def run(v, b, tier):
+        hooks_checks.check_hooks(v, b.t1_summary)
         conv_checks.check_conv(v, prop, b.t1_summary, base * SIZES[tier])
     return run
 
@@ -113,13 +116,13 @@ RULE_DISP = ("sessions of public-API operations (register_*_hook on classes/NewT
 
 REGISTRY = {
     "C01": {"props_file": "Props/C01.v", "files": CORE_CONV + ["Proofs/UnstructProofs.v", "Proofs/ClassRoundtrip.v", "Proofs/ConvRoundtrip.v", "Proofs/ConvCfg.v", "Props/C01.v"],
-            "run": _conv("C01", 40), "rule": RULE_CONV, "t1_sections": ["gen"]},
+            "run": _conv("C01", 40), "rule": RULE_CONV, "t1_sections": T1_CONV},
     "C03": {"props_file": "Props/C03.v", "files": CORE_CONV + ["Proofs/ConvSound.v", "Proofs/ConvPrim.v", "Proofs/ConvCfg.v", "Props/C03.v"],
-            "run": _conv("C03", 40), "rule": RULE_CONV, "t1_sections": ["gen"]},
+            "run": _conv("C03", 40), "rule": RULE_CONV, "t1_sections": T1_CONV},
     "C06": {"props_file": "Props/C06.v", "files": CORE_CONV + ["Proofs/UnstructProofs.v", "Proofs/ClassRoundtrip.v", "Proofs/ConvSound.v", "Proofs/ConvRoundtrip.v", "Proofs/ConvCfg.v", "Props/C06.v"],
-            "run": _conv("C06", 40), "rule": RULE_CONV, "t1_sections": ["gen"]},
+            "run": _conv("C06", 40), "rule": RULE_CONV, "t1_sections": T1_CONV},
     "C05": {"props_file": "Props/C05.v", "files": CORE_CONV + ["Model/ConvErr.v", "Proofs/ConvErrProofs.v", "Proofs/ConvCfg.v", "Props/C05.v"],
-            "run": (lambda v, b, tier: err_checks.check_c05(v, b.t1_summary, 60 * SIZES[tier])), "t1_sections": ["gen"],
+            "run": (lambda v, b, tier: (hooks_checks.check_hooks(v, b.t1_summary), err_checks.check_c05(v, b.t1_summary, 60 * SIZES[tier]))), "t1_sections": T1_CONV,
             "rule": "worlds as in the CONV lane plus TypedDicts (25% of the classes); per world 3 target types (a class, or a class inside list / mapping / tuple / Optional), "
                     "per type 3 valid payloads (the unstructured form of a generated value); into each payload k in {0,1,1,2,2,3,4,6} independent faults are injected at random "
                     "positions of any depth: a leaf its type cannot accept (int/float/bytes/enum/literal positions), a required key removed, an extra key (when forbid_extra_keys is on); "
@@ -133,13 +136,13 @@ REGISTRY = {
                     "(valid payloads, extra keys, missing keys, bad values, non-mappings); every call is bracketed by a deep identity snapshot of the argument; non-trivial = every call; "
                     "distinct = sha1 of (operation, configuration, type, input)"},
     "C16": {"props_file": "Props/C16.v", "files": CORE_CONV + ["Model/Preconf.v", "Proofs/ConvSound.v", "Proofs/ConvPrim.v", "Proofs/PreconfProofs.v", "Proofs/ConvCfg.v", "Props/C16.v"],
-            "run": (lambda v, b, tier: pre_checks.check_c16(v, 40 * SIZES[tier])), "t1_sections": ["gen"],
+            "run": (lambda v, b, tier: (hooks_checks.check_hooks(v, b.t1_summary), pre_checks.check_c16(v, 40 * SIZES[tier]))), "t1_sections": T1_CONV,
             "rule": "worlds as in the CONV lane with datetime / date leaves, no Any / untyped positions; per world 4 types x 2 values x every importable format (json, pyyaml, msgspec): "
                     "dumps, loads, deep equality -- skipped when the type is outside the format's limits (bool / float / bytes / class keys and int-valued enum keys in text formats, bytes "
                     "literals); for json additionally the model comparison; per world the user-hook battery: a hook pair registered for an attrs class and for a dataclass, used at top level, "
                     "in a list, inside an attrs class and inside a dataclass, for every format; non-trivial = composite type or class, and every hook check; distinct = sha1 of "
                     "(world, format, type, value)"},
-    "C02": {"props_file": "Props/C02.v", "files": CORE_CONV + ["Proofs/ConvSound.v", "Proofs/ConvCfg.v", "Props/C02.v"], "run": _conv("C02", 40), "rule": RULE_CONV, "t1_sections": ["gen"]},
+    "C02": {"props_file": "Props/C02.v", "files": CORE_CONV + ["Proofs/ConvSound.v", "Proofs/ConvCfg.v", "Props/C02.v"], "run": _conv("C02", 40), "rule": RULE_CONV, "t1_sections": T1_CONV},
     "C04": {"props_file": "Props/C04.v", "files": CORE_TPL + ["Props/C04.v"], "run": _c04, "rule": RULE_TPL, "t1_sections": ["gen"]},
     "C09": {"props_file": "Props/C09.v", "files": CORE_TPL + ["Proofs/UnstructProofs.v", "Props/C09.v"], "run": _c09, "rule": RULE_TPL, "t1_sections": ["gen"]},
     "C20": {"props_file": "Props/C20.v", "files": ["Model/Base.v", "Model/FieldConv.v", "Props/C20.v"], "run": _c20, "t1_sections": [],
